@@ -2582,9 +2582,10 @@ fn main() {
             let mut p = base(srvs[rot % 2], "reader", 0, 1, rot % 9);
             p.len = n;
             run.raw(&p, "N,n");
-            let mut p = base(srvs[(rot + 1) % 2], "reader", 0, 1, rot % 9);
+            let client = ["sync", "async", "wsc"][rot % 3];
+            let mut p = base(if client == "wsc" { "ws" } else { "tcp" }, "reader", 0, 1, rot % 9);
             p.len = n;
-            run.hl(&p, ["sync", "async", "wsc"][rot % 3], "vec");
+            run.hl(&p, client, "vec");
         }
     }
     // (K2) two knobs at their extremes at once: chunk x depth x compression/level
